@@ -1015,9 +1015,15 @@ class Context(MetadataContextMixin, object):
         if self.query is not None:
             self.enable_store_metadata = True
             self.debug(f"Subquery {query} called from {self.query.encode()}")
-            state = self.child_context().evaluate(
-                query, store_key=store_key, store_to=store_to, input_value=input_value, input_value_specified=input_value_specified
-            )
+            try:
+                state = self.child_context().evaluate(
+                    query, store_key=store_key, store_to=store_to, input_value=input_value, input_value_specified=input_value_specified
+                )
+            except EvaluationException as ee:
+                # the failure goes on to the caller: it is recorded here first, so that the metadata kept for this evaluation end as an error too
+                self.exception(message=ee.original_message, traceback=traceback.format_exc(), position=ee.position, query=ee.query)
+                self.enable_store_metadata = store_metadata_was_enabled
+                raise
             if not isinstance(query, str):
                 query = query.encode()
             self.log_subquery(query=query, description=description)
@@ -1094,7 +1100,12 @@ class Context(MetadataContextMixin, object):
                 c=self.child_context()
                 c.evaluated_key = self.evaluated_key
                 c.cwd_key = self.cwd_key
-                state = c.evaluate(p, cache=cache, input_value=input_value, input_value_specified=input_value_specified)
+                try:
+                    state = c.evaluate(p, cache=cache, input_value=input_value, input_value_specified=input_value_specified)
+                except EvaluationException as ee:
+                    # the failure goes on to the caller: it is recorded here first, so that the metadata kept for this query end as an error too
+                    self.exception(message=ee.original_message, traceback=traceback.format_exc(), position=ee.position, query=ee.query)
+                    raise
             if state.is_error:
                 self.status = Status.ERROR
                 self.is_error = True
